@@ -4,6 +4,6 @@ CONSTANTS
   Seed = 1
   CoverStride = 1
   FullDepth3 = TRUE
-INVARIANTS Evaluable OuterLaw LatticeLaw
+INVARIANTS Evaluable OuterLaw LatticeLaw BoundaryLaw
 POSTCONDITION EmitCases
 CHECK_DEADLOCK FALSE
